@@ -1,103 +1,9 @@
 //! C21 — the gate-sequence source map matches the expansion.
-//! Input `(prog (defs …) (body …) (sel …))` as for C20; output of the real
-//! `Program::expand_defgate_sequences_with_source_map`, compared with `Program::expand_defgate_sequences`:
-//!   (ok (body instr…) (kept "name"…) (intact b) (same b) (map entry…))   entry = (u src idx) | (r src "name" start stop (entry…))
-//!   (err <error> (same b))
-//! `same` = the other entry point returned an equal program / an equal error.
-use quil_rs::program::{DefGateSequenceExpansion, ExpansionResult, InstructionIndex, SourceMap};
-use quil_rs::quil::Quil;
-use quil_rs::verif_hooks;
-use quil_rs::Program;
-use qvh::seqgate::*;
+//! Same input and observation as C20 (`seqgate::observe`: both entry points, the full source map tree,
+//! `list_sources` / `list_targets` lookups, repeated calls), own random streams.
+use qvh::seqgate::run_streams;
 use qvh::*;
 
-type Map<'a> = SourceMap<InstructionIndex, ExpansionResult<DefGateSequenceExpansion<'a>>>;
-
-fn map_to_sexp(m: &Map<'_>, original: &Program) -> Vec<Sexp> {
-    m.entries()
-        .iter()
-        .map(|e| {
-            let src = nat(e.source_location().0 as u64);
-            match e.target_location() {
-                ExpansionResult::Unmodified(i) => tagged("u", vec![src, nat(i.0 as u64)]),
-                ExpansionResult::Rewritten(x) => {
-                    let (name, text) = verif_hooks::c21::expansion_source_signature(x);
-                    // the recorded signature must be that of the program's definition of that name
-                    let sig_ok = original
-                        .gate_definitions
-                        .get(&name)
-                        .map(|d| d.to_quil_or_debug().starts_with(&format!("{text}:")))
-                        .unwrap_or(false);
-                    tagged(
-                        "r",
-                        vec![
-                            src,
-                            st(if sig_ok { name } else { format!("<bad-signature {text}>") }),
-                            nat(x.range().start.0 as u64),
-                            nat(x.range().end.0 as u64),
-                            list(map_to_sexp(x.nested_expansions(), original)),
-                        ],
-                    )
-                }
-            }
-        })
-        .collect()
-}
-
-fn emit(ctx: &mut Ctx, c: &Case) {
-    let Some(program) = c.build() else { return };
-    let mut table = PhTable::default();
-    let input = case_to_sexp(c, &mut table);
-    let sel = c.sel.clone();
-    ctx.case(input, move || {
-        let plain = program.clone().expand_defgate_sequences(filter_of(&sel));
-        match program.expand_defgate_sequences_with_source_map(filter_of(&sel)) {
-            Ok((result, map)) => {
-                let (kept, intact) = kept_to_sexp(&program, &result);
-                let same = matches!(&plain, Ok(p) if *p == result);
-                tagged(
-                    "ok",
-                    vec![
-                        body_to_sexp(&result, &mut table),
-                        kept,
-                        intact,
-                        tagged("same", vec![boolean(same)]),
-                        tagged("map", map_to_sexp(&map, &program)),
-                    ],
-                )
-            }
-            Err(e) => {
-                let same = matches!(&plain, Err(p) if *p == e);
-                tagged("err", vec![program_error_to_sexp(&e, &mut table), tagged("same", vec![boolean(same)])])
-            }
-        }
-    });
-}
-
-fn run(ctx: &mut Ctx) {
-    for c in corpus() {
-        emit(ctx, &c);
-    }
-    let mut cases = vec![];
-    exhaustive(if ctx.quick() { 1 } else { 2 }, &mut |c| cases.push(c));
-    for c in &cases {
-        emit(ctx, c);
-    }
-    drop(cases);
-    let mut rng = ctx.rng(21);
-    let n = if ctx.quick() { 20_000 } else { 300_000 };
-    for i in 0..n {
-        let c = if i % 4 == 3 { random_case(&mut rng, 5, 10) } else { random_case(&mut rng, 4, 6) };
-        emit(ctx, &c);
-    }
-    let mut rng = ctx.rng(22);
-    let n = if ctx.quick() { 3_000 } else { 40_000 };
-    for _ in 0..n {
-        let c = random_unchecked_case(&mut rng);
-        emit(ctx, &c);
-    }
-}
-
 fn main() {
-    main_with(run)
+    main_with(|ctx| run_streams(ctx, 40))
 }
